@@ -30,9 +30,12 @@ ASSUMPTIONS = [
     "records still open when the input closes are not required (their window never closed)",
     "decode1090 -i/-d (the second copy of the algorithm, with a final flush) is observed from outside: JSON lines in, JSON lines out; "
     "timestamps there have at most 4 decimals so that every JSON reader parses them to the same double",
+    "system level: the unmodified jet1090 executable is fed the same frames on 2-3 loopback TCP feeds (Beast format); records on stdout "
+    "are judged for conservation (no reception invented or duplicated, undecodable frames silent, timestamp of the first member); a frame "
+    "whose receptions have not all come out 45 s after later traffic closed its window is a loss only when a second attempt reproduces it",
 ]
 
-MANDATORY = ["cli:history:monotone", "cli:history:non-monotone", "shape:reopened-frame", "shape:equal-stamps", "shape:decreasing-stamps", "shape:W=0",
+MANDATORY = ["system:records", "system:groups-merged-from-several-receivers", "cli:history:monotone", "cli:history:non-monotone", "shape:reopened-frame", "shape:equal-stamps", "shape:decreasing-stamps", "shape:W=0",
              "shape:undecodable-group-dropped", "shape:group>=3", "shape:joined-at-expiry", "shape:several-closed-at-once"]
 
 
@@ -463,6 +466,12 @@ def worker(args):
         b, rid = assign_ids([(window, h)], rid)
         run_cli(rep, cli, b[0][0], b[0][1], decodable, tmpdir)
     rep.extra["decode1090_histories"] = ncli
+    # the whole jet1090 executable: 2-3 loopback feeds, receiver tasks + deduplication task + main loop on the real runtime
+    import sysjet
+    nsys = 1 if tier == "quick" else 6
+    for _ in range(nsys):
+        sysjet.c10_scenario(rep, binary, os.path.join(tmpdir, f"sys{shard}"), rng)
+    rep.extra["system_scenarios"] = nsys
     rep.exhaustive = False
     return rep.to_dict()
 
